@@ -297,3 +297,37 @@ func staticSharedState(g *Gen, o CheckOpts) []StaticResult {
 	}
 	return out
 }
+
+func init() {
+	staticChecks["save-tobytes-steps"] = staticSaveToBytesSteps
+}
+
+// serializeCalls lists, in program order, the (*Document).serialize* methods a function calls.
+func serializeCalls(fn *ssa.Function) []string {
+	var out []string
+	if fn == nil {
+		return nil
+	}
+	for _, b := range topoOrder(fn) {
+		for _, in := range b.Instrs {
+			if c, ok := in.(ssa.CallInstruction); ok {
+				if sc := c.Common().StaticCallee(); sc != nil && inRepo(sc) && strings.HasPrefix(sc.Name(), "serialize") {
+					out = append(out, sc.Name())
+				}
+			}
+		}
+	}
+	return out
+}
+
+// staticSaveToBytesSteps: Save and ToBytes run the same serialisation steps in the same order before
+// they write d.parts (their contracts then say that both write exactly d.parts), so they cannot
+// disagree about content.
+func staticSaveToBytesSteps(g *Gen, o CheckOpts) []StaticResult {
+	a := serializeCalls(g.FuncByKey("document.(*Document).Save"))
+	b := serializeCalls(g.FuncByKey("document.(*Document).ToBytes"))
+	ok := len(a) > 0 && strings.Join(a, ",") == strings.Join(b, ",")
+	return []StaticResult{{Name: "static:save-tobytes-same-serialisation-steps", OK: ok,
+		Desc:   "Save and ToBytes call the same serialize* steps in the same order before writing the parts",
+		Detail: fmt.Sprintf("Save:    %v\nToBytes: %v", a, b)}}
+}
